@@ -372,7 +372,16 @@ fn build_mc(udir: &Path, tier: Tier, sc: &uni::Scratch) -> Uni {
 		let pb = ProofBuilder::new(&kc);
 		uni::tx(&kc, KernelFeatures::Plain { fee: 900u32.into() }, &[build::coinbase_input(REWARD, uni::kid(2)), build::coinbase_input(REWARD, uni::kid(4)), build::output(2 * REWARD - 900, uni::kid(114))], &pb, 14).expect("T14")
 	};
+	// a valid transaction whose offset is minus T1's (the split between kernel excess and offset is the sender's
+	// choice): in a block on top of one that carried only T1 the running total of kernel offsets comes back to zero
+	let t15 = {
+		let pb = ProofBuilder::new(&kc);
+		let secp = kc.secp();
+		let minus_t1 = secp.blind_sum(vec![], vec![t1.offset.secret_key(secp).expect("T1 offset")]).expect("negate");
+		uni::tx_with_offset(&kc, KernelFeatures::Plain { fee: 700u32.into() }, &[build::coinbase_input(REWARD, uni::kid(5)), build::output(REWARD - 700, uni::kid(115))], &pb, 15, &grin_keychain::BlindingFactor::from_secret_key(minus_t1)).expect("T15")
+	};
 	for (n, t, k) in [
+		("T15", &t15, Kind::Plain),
 		("T1", &t1, Kind::Plain),
 		("T2", &t2, Kind::Plain),
 		("T3", &t3, Kind::Plain),
@@ -620,12 +629,18 @@ fn alphabet(u: &Uni, tier: Tier) -> Vec<Op> {
 		if u.txs[i].name == "T11" || u.txs[i].name == "T14" || (u.txs[i].name == "T13" && !full) {
 			continue;
 		}
+		if u.txs[i].name == "T15" {
+			// fluff only (after the others, so that the shortest counterexamples name the plain transactions)
+			continue;
+			continue;
+		}
 		v.push(Op::Submit(i, false));
 		// quick: stem submissions of the 0-conf pair and of the immature spend only
 		if full || ["T1", "T4", "T9"].contains(&u.txs[i].name.as_str()) {
 			v.push(Op::Submit(i, true));
 		}
 	}
+	v.push(Op::Submit(u.tx_index("T15").unwrap(), false));
 	for s in 0..4 {
 		if full || s != 3 {
 			v.push(Op::Connect(s));
